@@ -30,7 +30,7 @@ from . import layout_folds as lay
 def r1(run, tree):
     run.rule("C13.R1", "skip = read, in bytes (mesh blocks, step_over, particle header)", "D1 + sibling agreement", "", floor=12)
     lay.check_bodies(run, tree)
-    lay.check_part_header(run, tree, only_read_vs_skip=True)
+    lay.check_part_header(run, tree)
 
 
 def r2(run, tree):
